@@ -15,19 +15,25 @@ import (
 
 // Finding is one entry of /verif/known_findings.json.
 type Finding struct {
-	Property string `json:"property"`
-	Status   string `json:"status"`  // known | fixed
-	Harness  string `json:"harness"` // regexp on harness name
-	Kind     string `json:"kind"`    // violation kind (assert|panic|deadlock|goroutine-panic|nontermination)
-	Label    string `json:"label"`   // regexp on assertion label / panic message
-	Site     string `json:"site"`    // regexp on "func site" of the failing instruction
-	Commit   string `json:"commit,omitempty"`
-	What     string `json:"what"`
+	Property string         `json:"property"`
+	Status   string         `json:"status"`           // known | fixed
+	Harness  string         `json:"harness"`          // regexp on harness name
+	Kind     string         `json:"kind"`             // violation kind (assert|panic|deadlock|goroutine-panic|nontermination)
+	Label    string         `json:"label"`            // regexp on assertion label / panic message
+	Site     string         `json:"site"`             // regexp on "func site" of the failing instruction
+	Params   map[string]int `json:"params,omitempty"` // instance parameters that must match exactly
+	Commit   string         `json:"commit,omitempty"`
+	What     string         `json:"what"`
 }
 
-func (f *Finding) matches(prop, harness string, v *interp.Violation) bool {
+func (f *Finding) matches(prop, harness string, params map[string]int, v *interp.Violation) bool {
 	if f.Property != prop || f.Status != "known" {
 		return false
+	}
+	for k, want := range f.Params {
+		if got, ok := params[k]; !ok || got != want {
+			return false
+		}
 	}
 	m := func(pat, s string) bool {
 		if pat == "" {
@@ -136,7 +142,7 @@ func (d *driver) report(all []*result, loadTime float64) int {
 		writeReplayFile(path, d.prop, vr)
 		vr.Replay = path
 		for fi := range findings {
-			if findings[fi].matches(d.prop, vr.Harness, vr.Violation) {
+			if findings[fi].matches(d.prop, vr.Harness, vr.Params, vr.Violation) {
 				vr.Known = findings[fi].What
 			}
 		}
